@@ -321,6 +321,13 @@ int ctx_open(ctx_t *x, const cfg_t *c, const uint64_t *lens, const int *kinds, i
         mon_end();
     }
     if (x->desc <= 0) return -1;
+    x->desc2 = -1;
+    if (mon_case_all("%s|create-twin-instance", x->ck)) {
+        x->desc2 = lec_create(c);
+        if (x->desc2 <= 0) mon_viol(LEC_PROP, "create-failed", "second instance_create for the same configuration returned %d", x->desc2);
+        else if (x->desc2 == x->desc) mon_viol(LEC_PROP, "descriptor-not-unique", "second instance got the descriptor of the first (%d)", x->desc);
+        mon_end();
+    }
     if (nlen > MAXSTR) nlen = MAXSTR;
     for (int i = 0; i < nlen; i++) {
         int ok = 0;
@@ -366,6 +373,13 @@ int ctx_open(ctx_t *x, const cfg_t *c, const uint64_t *lens, const int *kinds, i
 void ctx_close(ctx_t *x)
 {
     for (int i = 0; i < x->nstr; i++) { stripe_free(&x->st[i]); free(x->data[i]); }
+    if (x->desc2 > 0) {
+        if (mon_case_all("%s|destroy-twin-instance", x->ck)) {
+            int rc = liberasurecode_instance_destroy(x->desc2);
+            if (rc != 0) mon_viol(LEC_PROP, "destroy-failed", "instance_destroy of the twin instance returned %d", rc);
+            mon_end();
+        }
+    }
     if (x->desc > 0) {
         if (mon_case_all("%s|destroy", x->ck)) {
             int rc = liberasurecode_instance_destroy(x->desc);
